@@ -14,6 +14,13 @@ package main
 //     original or the complete new content"; every prefix is also a correspondence line for the
 //     Lean model's `exec` (plus random operation lists, to tie the model of each operation to
 //     the operating system).
+//  C. the REAL rewriteFile on a path that is a regular file, a symbolic link or a hard link of
+//     the message file: complete runs, and runs whose write fails half-way (the file-size limit
+//     of the process is lowered below the size of the new content for the duration of the call,
+//     SIGXFSZ ignored, so the kernel writes a part and the next write returns EFBIG): direct
+//     oracle "the path, and the file it is linked to, hold the complete original or the complete
+//     new content; a later run leaves the new content and no directory entry that was not
+//     there before".  Needs no translator output.
 
 import (
 	"bytes"
@@ -21,10 +28,12 @@ import (
 	"fmt"
 	"math/rand"
 	"os"
+	"os/signal"
 	"path/filepath"
 	"sort"
 	"strconv"
 	"strings"
+	"syscall"
 	"testing"
 
 	"github.com/tucats/ego/internal/verifh"
@@ -237,7 +246,10 @@ func TestVerifC36(t *testing.T) {
 
 	b, err := os.ReadFile(filepath.Join(os.Getenv("VERIF_OUT"), "c36_ops.json"))
 	if err != nil || json.Unmarshal(b, &extracted) != nil || len(extracted.Ops) == 0 {
-		t.Fatalf("c36_ops.json (translator output) missing or unreadable: %v", err)
+		// the translator failed closed (checks/C36.py reports that): the oracles on the real rewriteFile still run
+		t.Logf("c36_ops.json (translator output) missing or unreadable: %v; crash replay of the operation list skipped", err)
+
+		extracted.Ops = nil
 	}
 
 	ops := extracted.Ops
@@ -288,6 +300,13 @@ func TestVerifC36(t *testing.T) {
 		if i < 3 {
 			stats.Sample(map[string]any{"kind": "complete run", "scenario": desc, "after": after})
 		}
+	}
+
+	// ---- C. regular file / symbolic link / hard link: complete runs and writes that fail half-way
+	c36Linked(t, base, fails, stats)
+
+	if len(ops) == 0 {
+		return
 	}
 
 	// ---- B. crash replay of the extracted operation list, and random operation lists
@@ -377,5 +396,194 @@ func TestVerifC36(t *testing.T) {
 
 			emit(s, list, "random")
 		}
+	}
+}
+
+// c36LinkSetup lays a scenario out as <dir>/dir/<name> (the path given to rewriteFile) which is,
+// depending on via, the file itself, a symbolic link to <dir>/real/<name> or a hard link of it.
+func c36LinkSetup(dir string, s c36Scenario, via string) (path, other string) {
+	_ = os.RemoveAll(dir)
+	_ = os.MkdirAll(filepath.Join(dir, "dir"), 0o755)
+
+	path = filepath.Join(dir, "dir", s.name)
+	first := path
+
+	if via != "direct" {
+		_ = os.MkdirAll(filepath.Join(dir, "real"), 0o755)
+		other = filepath.Join(dir, "real", s.name)
+		first = other
+	}
+
+	_ = os.WriteFile(first, s.orig, 0o600)
+	_ = os.Chmod(first, s.mode)
+
+	switch via {
+	case "symlink":
+		_ = os.Symlink(filepath.Join("..", "real", s.name), path)
+	case "symlink-abs":
+		_ = os.Symlink(other, path)
+	case "hardlink":
+		_ = os.Link(other, path)
+	}
+
+	if s.tmp != nil {
+		_ = os.WriteFile(path+".langlint-tmp", *s.tmp, 0o600)
+	}
+
+	return path, other
+}
+
+func c36ListBoth(dir string) []string {
+	res := []string{}
+
+	for _, sub := range []string{"dir", "real"} {
+		for _, n := range c36List(filepath.Join(dir, sub)) {
+			res = append(res, sub+"/"+n)
+		}
+	}
+
+	return res
+}
+
+// c36WithFileLimit runs f while no file of this process can grow beyond limit bytes; a write
+// that would do so writes the part that fits and then fails with EFBIG.
+func c36WithFileLimit(limit int, f func()) bool {
+	var old syscall.Rlimit
+
+	if syscall.Getrlimit(syscall.RLIMIT_FSIZE, &old) != nil {
+		return false
+	}
+
+	signal.Ignore(syscall.SIGXFSZ)
+
+	lowered := syscall.Rlimit{Cur: uint64(limit), Max: old.Max}
+	if syscall.Setrlimit(syscall.RLIMIT_FSIZE, &lowered) != nil {
+		return false
+	}
+
+	defer func() { _ = syscall.Setrlimit(syscall.RLIMIT_FSIZE, &old) }()
+
+	f()
+
+	return true
+}
+
+func c36Linked(t *testing.T, base string, fails *verifh.Writer, stats *verifh.Stats) {
+	r := verifh.Rand(3601)
+	vias := []string{"symlink", "hardlink", "direct", "symlink-abs"}
+	dir := filepath.Join(base, "c")
+	prefix := func(b []byte) string { return verifh.Hex(string(b[:min(len(b), 24)])) }
+
+	n := verifh.N(160, 2000)
+	for i := 0; i < n; i++ {
+		s := c36Scen(r, i%8 != 0)
+		s.bak = nil
+		via := vias[i%len(vias)]
+		limit := -1 // complete run
+
+		if (i/len(vias))%2 == 1 && len(s.fresh) > 0 {
+			limit = r.Intn(len(s.fresh)) // the write of the new content fails after `limit` bytes
+		}
+
+		path, other := c36LinkSetup(dir, s, via)
+		before := c36ListBoth(dir)
+		desc := fmt.Sprintf("path is %s: name=%q mode=%o orig=%s (%d bytes) new=%s (%d bytes) stale=%v write fails after %d bytes (-1: never)",
+			via, s.name, s.mode, prefix(s.orig), len(s.orig), prefix(s.fresh), len(s.fresh), before, limit)
+
+		var err error
+
+		if limit < 0 {
+			err = rewriteFile(path, s.fresh)
+		} else if !c36WithFileLimit(limit, func() { err = rewriteFile(path, s.fresh) }) {
+			stats.Inc("linked.no_rlimit")
+
+			continue
+		}
+
+		stats.Inc("linked." + via + map[bool]string{true: ".complete", false: ".write_fails"}[limit < 0])
+
+		if i < 4 {
+			stats.Sample(map[string]any{"kind": "linked run", "scenario": desc, "err": fmt.Sprint(err)})
+		}
+
+		whole := func(p string) (string, bool) {
+			got, rerr := os.ReadFile(p)
+			if rerr != nil {
+				return "absent", false
+			}
+
+			return fmt.Sprintf("%d bytes %s", len(got), prefix(got)), bytes.Equal(got, s.orig) || bytes.Equal(got, s.fresh)
+		}
+
+		if got, ok := whole(path); !ok {
+			fails.Write(verifh.Failure{Class: "crash-window", What: "after rewriteFile returned (err: " + c36ErrKind(err) + ") the path holds neither the complete original nor the complete new content",
+				Input: desc, Got: got, Want: "original or new content"})
+
+			continue
+		}
+
+		if other != "" {
+			if got, ok := whole(other); !ok {
+				fails.Write(verifh.Failure{Class: "crash-window-linked", What: "after rewriteFile returned (err: " + c36ErrKind(err) + ") the file the path was linked to holds neither the complete original nor the complete new content",
+					Input: desc, Got: got, Want: "original or new content"})
+
+				continue
+			}
+		}
+
+		got, _ := os.ReadFile(path)
+
+		if err == nil && !bytes.Equal(got, s.fresh) {
+			fails.Write(verifh.Failure{Class: "rewrite-content", What: "rewriteFile returned nil but the path does not hold the new content", Input: desc, Got: prefix(got)})
+
+			continue
+		}
+
+		if limit < 0 && err != nil {
+			fails.Write(verifh.Failure{Class: "rewrite-failed", What: "rewriteFile returned an error on a writable directory", Input: desc, Got: c36ErrKind(err)})
+
+			continue
+		}
+
+		// a later run completes the job; nothing new is left in either directory
+		if !bytes.Equal(got, s.fresh) {
+			err = rewriteFile(path, s.fresh)
+			got, _ = os.ReadFile(path)
+		}
+
+		after := c36ListBoth(dir)
+		info, serr := os.Stat(path)
+
+		switch {
+		case err != nil || !bytes.Equal(got, s.fresh):
+			fails.Write(verifh.Failure{Class: "crash-residue", What: "a later run after the failed one does not leave the new content", Input: desc, Got: c36ErrKind(err) + " " + prefix(got)})
+		case serr != nil || info.Mode().Perm() != s.mode.Perm():
+			fails.Write(verifh.Failure{Class: "rewrite-mode", What: "permission bits of the file changed", Input: desc, Got: fmt.Sprint(info.Mode().Perm()), Want: fmt.Sprint(s.mode.Perm())})
+		default:
+			was := map[string]bool{}
+			for _, e := range before {
+				was[e] = true
+			}
+
+			for _, e := range after {
+				if !was[e] {
+					fails.Write(verifh.Failure{Class: "crash-residue", What: "a directory entry that was not there before is left behind", Input: desc, Got: strings.Join(after, " ")})
+
+					break
+				}
+			}
+		}
+	}
+}
+
+// c36ErrKind maps an error to a small enum (never message text).
+func c36ErrKind(err error) string {
+	switch {
+	case err == nil:
+		return "nil"
+	case strings.Contains(err.Error(), syscall.EFBIG.Error()):
+		return "EFBIG"
+	default:
+		return "error"
 	}
 }
